@@ -4,14 +4,14 @@ from props._gen import run_matrix, replay_generic, diverse_specs, wide_specs, wi
 RULE = ('per case: one family of 15 (one-shot, incremental, masked, SIV, ISAP x 3), a fresh key/nonce/AD/message; the '
         'valid ciphertext must decrypt to the plaintext; then every single-bit flip of ciphertext, tag, AD, nonce and '
         'key (messages <= 3 blocks: all bits; longer: all bits of first/last block + one random bit per byte), 16 random '
-        'multi-bit changes, tag-zero/first/last byte, truncation and extension by 1..17 bytes at head and tail, every '
+        'multi-bit changes, every 2-bit flip of the tag, XOR- and ADD-cancelling byte pairs, byte swaps and rotations of the tag, tag-zero/first/last byte, truncation and extension by 1..17 bytes at head and tail, every '
         'clen 0..15, AD truncated/extended -> result must be negative and (one-shot) all mlen plaintext bytes zero in a '
         'buffer pre-filled with 0xA5; distinct = (build, family, ad-class, m-class, exhaustive|sampled)')
 ASSUME = ['accepting forgeries that need >= 2 cancelling differences are sampled, not enumerated']
 
 
 def harnesses():
-    return [with_args(H['aead'], 'aead', ['--arg', 'dec'], 1500, 30000)]
+    return [with_args(H['aead'], 'aead', ['--arg', 'dec'], 600, 12000)]
 
 
 def run(ctx):
